@@ -154,7 +154,7 @@ pub fn rel_case(c: &mut Cur) -> c03::RelCase {
     let dev = c.below(8) as u8;
     let dev = if dev >= 4 { 0 } else { dev };
     let dev = if dev == 1 && d.abs() > 800 { 0 } else if dev == 2 && d.abs() > 3500 { 0 } else { dev };
-    c03::RelCase { kind, s: c.u8() % 8, d, prefix: c.u8(), filler: c.vec(0, 11, |c| c.u8()), spelling: c.u8() % 4, k: c.u8(), dev, style: c.style() }
+    c03::RelCase { kind, s: c.u8() % 8, d, prefix: c.u8(), filler: c.vec(0, 11, |c| c.u8()), spelling: c.u8() % 6, k: c.u8(), dev, style: c.style() }
 }
 
 pub fn raw_data(c: &mut Cur) -> c06::RawData {
@@ -295,7 +295,11 @@ pub struct InstrCase {
     pub pc: u8,
     /// index into the device table (+1), 0 = none
     pub dev: u16,
-    /// how each value operand is spelled: 0 decimal, 1 hex when non-negative, 2 through `.equ`, 3 parenthesised, 4 `v+0`
+    /// how each value operand is spelled: 0 decimal, 1 hex when non-negative, 2 through `.equ`, 3 parenthesised, 4 `v+0`,
+    /// 5 character literal (when v is a printable character, also far beyond one byte), 6 a `.set` variable
+    /// re-assigned while `.dseg` is selected, 7 / 8 through a macro: a compound argument whose grouping
+    /// matters, or a body that applies an operator to the parameter (one macro per line, so only the first
+    /// value operand that asks for it gets it)
     pub spell: Vec<u8>,
 }
 
@@ -359,7 +363,7 @@ pub fn instr_case(c: &mut Cur) -> InstrCase {
         }
         v
     };
-    let spell = (0..ops.len()).map(|_| c.u8() % 5).collect();
+    let spell = (0..ops.len()).map(|_| c.u8() % 9).collect();
     InstrCase { m, ops, pc, dev, spell }
 }
 
@@ -372,8 +376,10 @@ impl InstrCase {
             pre.push_str(&format!(".device {}\n", d));
         }
         let mut parts = vec![];
+        // (index of the operand passed through a macro, text of the argument, text standing for it in the body)
+        let mut via_macro: Option<(usize, String, String)> = None;
         for (i, o) in self.ops.iter().enumerate() {
-            let val = |v: i64, pre: &mut String| -> String {
+            let mut val = |v: i64, pre: &mut String| -> String {
                 match self.spell.get(i).copied().unwrap_or(0) {
                     1 if v >= 0 => format!("0x{:x}", v),
                     2 => {
@@ -382,6 +388,25 @@ impl InstrCase {
                     }
                     3 => format!("({})", v),
                     4 => format!("{}+0", v),
+                    5 => match u32::try_from(v).ok().and_then(char::from_u32) {
+                        Some(ch) if v >= 0x20 && ch != '\'' && ch != '\\' && ch != '"' && !ch.is_control() && v != 0x7f => format!("'{}'", ch),
+                        _ => v.to_string(),
+                    },
+                    6 => {
+                        pre.push_str(&format!(".set fz_s{} = 1\n.dseg\n.set fz_s{} = {}\n.cseg\n", i, i, v));
+                        format!("fz_S{}", i)
+                    }
+                    7 | 8 if via_macro.is_none() && v.checked_neg().is_some() && v.checked_neg().and_then(|n| n.checked_sub(3)).is_some() => {
+                        // v = (a + b) * -1 with a = 3
+                        let b = -v - 3;
+                        let grouped = format!("(3+{})*-1", if b < 0 { format!("({})", b) } else { b.to_string() });
+                        if self.spell[i] == 7 {
+                            via_macro = Some((i, grouped, "@0".to_string()));
+                        } else {
+                            via_macro = Some((i, format!("3+{}", if b < 0 { format!("({})", b) } else { b.to_string() }), "@0*-1".to_string()));
+                        }
+                        "\u{1}".to_string()
+                    }
                     _ => v.to_string(),
                 }
             };
@@ -392,14 +417,19 @@ impl InstrCase {
             });
         }
         let mut s = pre;
+        let mut line = self.m.clone();
+        if !parts.is_empty() {
+            line.push(' ');
+            line.push_str(&parts.join(", "));
+        }
+        if let Some((_, arg, body)) = &via_macro {
+            s.push_str(&format!(".macro fz_m\n{}\n.endm\n", line.replace('\u{1}', body)));
+            line = format!("FZ_M {}", arg);
+        }
         for _ in 0..self.pc {
             s.push_str("nop\n");
         }
-        s.push_str(&self.m);
-        if !parts.is_empty() {
-            s.push(' ');
-            s.push_str(&parts.join(", "));
-        }
+        s.push_str(&line);
         s.push('\n');
         s
     }
